@@ -146,6 +146,21 @@ Definition theorem_applies_quoted (d : document) : bool :=
   | Err _ => false
   end.
 
+(* ---- quoted triples maps in OBJECT position at document level (Proofs/DocQuotedObjP.v): an object map that quotes a plain triples map
+   over the same rows (no join condition, no term type / language / datatype of its own) *)
+Definition qobj_objmap (o : objmap) : bool :=
+  mkind_eqb (m_kind (o_tm o)) KQuoted
+  && (match m_tt (o_tm o), o_lang o, o_dt o with None, None, None => true | _, _, _ => false end)
+  && (match o_joins o with [] => true | _ => false end).
+Definition qplain_pom (p : pom) : bool :=
+  forallb plain_map (p_preds p) && (forallb plain_objmap (p_objs p) || forallb qobj_objmap (p_objs p)) && forallb plain_graph (p_graphs p).
+Definition qobj_tm (t : tmapdef) : bool :=
+  plain_map (t_subj t) && forallb plain_graph (t_sgraphs t) && forallb qplain_pom (t_poms t) && match t_sjoins t with [] => true | _ => false end.
+Definition qobj_target_ok (d : document) (o : objmap) : bool :=
+  if qobj_objmap o then match find (fun q => ueqb (t_id q) (m_value (o_tm o))) d with Some q => plain_tm q | None => false end else true.
+Definition qobj_doc (d : document) : bool :=
+  forallb (fun t => qobj_tm t && forallb (fun p => forallb (qobj_target_ok d) (p_objs p)) (t_poms t)) d && nodupb (map t_id d).
+
 (* the end-to-end theorem of C01 applies to this document and configuration *)
 Definition theorem_applies (nquads : bool) (d : document) : bool :=
   forallb plain_tm d && match normalise d with Ok rules => forallb simple_ruleb rules | Err _ => false end.
